@@ -524,7 +524,7 @@ Qed.
 (* constrain_sequence: result is in the space, touches only the segments of choices that did not
    already hold, and a second call changes nothing and draws nothing *)
 Theorem constrain_sequence_spec : forall ms s r s' r',
-  wf_space ms -> (forall c, In c (choices_list ms) -> cend c <= zlen s) ->
+  wf_choices ms -> (forall c, In c (choices_list ms) -> cend c <= zlen s) ->
   constrain_sequence ms s r = COk s' r' ->
   member ms s' /\ zlen s' = zlen s /\
   (forall i, 0 <= i -> nth_error s' (Z.to_nat i) <> nth_error s (Z.to_nat i) ->
@@ -532,7 +532,7 @@ Theorem constrain_sequence_spec : forall ms s r s' r',
   (forall r2, constrain_sequence ms s' r2 = COk s' r2).
 Proof.
   intros ms s r s' r' Hwf Hbnd Hrun.
-  destruct Hwf as (W1 & W2 & W3 & W4).
+  destruct Hwf as (W1 & W2).
   unfold constrain_sequence in *.
   destruct (loop_spec (choices_list ms) s s r s' r' W1 W2 Hbnd eq_refl
               (fun _ _ _ _ => eq_refl) Hrun) as (A & B & C).
